@@ -68,8 +68,22 @@ def make_case(rc):
     del MARK[:]
     try:
         try:
-            src, ctx = I.translate([(title, cells)] if kind != 'title_ref' else [('Calc', cells), (title, {'A1': 'v'})])
-            impl = ctx._cell_translations.get(uid)
+            if kind == 'title_ref':
+                # through the real pipeline: an xlsx file read by Excel.parse (whatever the reader does to formula texts happens here)
+                import os
+                from openpyxl import Workbook
+                wb = Workbook()
+                wb.active.title = 'Calc'
+                for a_, v_ in cells.items():
+                    wb.active[a_] = v_
+                wb.create_sheet(title)['A1'] = 'v'
+                os.makedirs(os.path.join(C.BUILD, 'c07'), exist_ok=True)
+                path = os.path.join(C.BUILD, 'c07', 't%d.xlsx' % os.getpid())
+                wb.save(path)
+                src, ctx = I.Parser().set_excel_file_path(path).disable_safety_check().get_translation(), None
+            else:
+                src, ctx = I.translate([(title, cells)])
+            impl = ctx._cell_translations.get(uid) if ctx is not None else None
         except I.X.E2PyclParserException:
             src = None
         except Exception as e:  # noqa
